@@ -102,6 +102,25 @@ def conc_replay(ctx, rpc_job):
                "protocol itself is decided by C01/C02); futures polled, no coroutines")
 
 
+KEY_THROW_ORPHAN = "throwing_push_orphans_waiting_pop"   # known_findings.jsonl, fixed by /repo 3c3638a
+
+
+def key_fn(sid, line, txt):
+    """violation key; a divergence at a throwing push made while a pop was waiting, in which a waiter
+    disappeared, gets the key under which that defect is filed"""
+    import json
+    import re
+    m = re.match(r"DIVERGE \S+ step=\d+ action=PushThrowCS\(\w+\) expected=(.*) got=(\{.*\})$", line.strip())
+    if m:
+        try:
+            exp, got = json.loads(m.group(1)), json.loads(m.group(2))
+            if exp["waiters"] and len(got["waiters"]) < len(exp["waiters"]):
+                return KEY_THROW_ORPHAN
+        except Exception:
+            pass
+    return "diverge:%s:%s" % (SPEC, re.sub(r"^DIVERGE \S+ ", "", line)[:80])
+
+
 class Background:
     """runs fn() on a thread; result() joins and re-raises"""
     def __init__(self, fn):
@@ -155,9 +174,6 @@ def run(ctx):
     names = [("plain", "checked"), ("poll", "coro"), ("poll", "coro")]
     # thorough bounds: limit+4 pushes, limit+2 pops, 2+2 unblocks, 1 throwing push
     deep = {} if ctx.quick else {"ExtraPush": 4, "MaxUnblockPop": 2}
-    if os.environ.get("C10_THROW_AT_HANDOVER"):
-        # only for a tree in which a throwing push no longer loses the waiting consumer (see LimitedQueue.tla)
-        deep["ThrowAtHandover"] = "TRUE"
     # limits 1..4 in one graph (the constructor picks the limit in Init); the rotation of the API forms over the
     # pushes differs per limit and per seed, so every form meets the room, hand-over and blocked branch
     form_shift = ctx.seed % 4
@@ -174,7 +190,7 @@ def run(ctx):
     consts["FormShift"] = form_shift
     if "seq" in parts:
         graph_replay(ctx, SPEC, SPEC, "LimitedQueue_seq.cfg", "seq", rp, make_proj(form_shift),
-                     header_fn=hdr, merge_re=MERGE, must_take=SEQ_ACTIONS, constants=consts,
+                     header_fn=hdr, merge_re=MERGE, must_take=SEQ_ACTIONS, constants=consts, key_fn=key_fn,
                      extra_random=500 if ctx.quick else 5000, tlc_kw={"workers": WORKERS}, replay_timeout=3000)
 
     # 2. all interleavings of 2 producer + 2 consumer threads at critical-section grain, limits 1..4 (TLC only)
@@ -208,6 +224,13 @@ def run(ctx):
         if not r.violation:
             raise vlib.MachineryError("LimitedQueue properties accept the pre-fix model (Fixed = FALSE): vacuous")
         ctx.extra["prefix_model_rejected_by"] = r.violation
+        # ... and so must the model of the code before 3c3638a (a throwing push orphans the waiting pop)
+        vlib.write_cfg(pre, base, {"FixedThrow": "FALSE"})
+        r = vlib.run_tlc(sd, SPEC, pre, "%s_prefix" % ctx.prop, workers=2, coverage=False)
+        if not r.violation:
+            raise vlib.MachineryError("LimitedQueue properties accept the model of the code before 3c3638a "
+                                      "(FixedThrow = FALSE): vacuous")
+        ctx.extra["orphaning_throw_model_rejected_by"] = r.violation
 
     ctx.assume("interleavings of 2 producer + 2 consumer threads are decided on the specification at critical-section "
                "grain; the implementation is bound to that grain (a) by single-threaded replays of every edge with "
@@ -222,10 +245,8 @@ def run(ctx):
                "std::pair/std::deque internals, not by queue.h); the multi-thread replay uses int items; limits 1..4; limit 0 "
                "(no push can ever complete) excluded; limited_queue<void> does not instantiate (std::pair<void,...>)")
     ctx.assume("throwing construction: one push per history whose item constructor throws (first constructor to run during the "
-               "call), in the room and in the blocked branch; NOT while a consumer waits (hand-over branch): at 5fcdbbb the "
-               "waiting pop is taken out of _awaiters, its promise claimed and its future left pending for ever -- reported "
-               "as a candidate defect; LimitedQueue.tla ThrowAtHandover = TRUE (C10_THROW_AT_HANDOVER=1) models the repaired "
-               "behaviour; constructors throwing inside pop (move of the delivered item) are not modelled")
+               "call), in the room, blocked and hand-over branch; constructors throwing inside pop (move of the delivered item) "
+               "or in the extra move of the hand-over branch are not modelled")
     ctx.assume("futures are abstracted to pending|value|exception|canceled with a single resolver each "
                "(justified by C01/C02); the replay uses the real futures; a future awaited by at most one coroutine")
     ctx.assume("bounds: at most limit+3 pushes, limit+2 pops, 2 unblock_push, 1 unblock_pop, 1 throwing push per history in "
